@@ -3,7 +3,7 @@
 //   * the work-items of ONE group are alive at the same time: each runs as a ucontext fiber on its own
 //     stack (mmap'ed, guard page below it);
 //   * barrier() = the calling item is suspended until every item of its group has reached a barrier;
-//     then all of them continue (in item order x fastest).  Items never run truly in parallel: an item
+//     then all of them continue (in item order x fastest; GPUEMU_ITEM_ORDER=desc reverses the order).  Items never run truly in parallel: an item
 //     runs from its start / from a barrier to its next barrier / to its end without interruption, the
 //     items of a group in ascending linear order in every phase, groups one after another.  That is ONE
 //     of the executions the documented launch model allows; a kernel whose items are independent
@@ -27,6 +27,9 @@
 // the fiber executor at static-initialisation time.  Without the macro nothing changes (sequential
 // executor, barriers refused in groups of more than one item, qualifiers undefined).
 //
+// Group-shared declarations get the section "gpuemu_shared" with -DGPUEMU_RACE (race pass: the monitor must know which
+// addresses are per-group storage); see race_runtime.cpp.
+//
 // ASan: every switch is bracketed by __sanitizer_start_switch_fiber/__sanitizer_finish_switch_fiber,
 // fiber stacks are unpoisoned before reuse.  Single-threaded; no clock; no randomness.
 #ifndef VERIF_GPUEMU_WORKGROUP_HPP
@@ -41,13 +44,17 @@
 #include <exception>
 #include <vector>
 
-#if defined(__SANITIZE_ADDRESS__)
-#  include <sanitizer/common_interface_defs.h>
-#  include <sanitizer/asan_interface.h>
-#  define GPUEMU_ASAN 1
-#else
-#  define GPUEMU_ASAN 0
-#endif
+// ASan fiber support through weak references: every TU gets the same inline code whatever its own sanitizer flags
+// (device TUs of the race pass are TSan-instrumented, the rest of the executable is ASan-instrumented); the calls
+// happen iff the ASan runtime is present in the process.
+extern "C" {
+  void __sanitizer_start_switch_fiber(void **fake_stack_save, const void *bottom, size_t size) __attribute__((weak));
+  void __sanitizer_finish_switch_fiber(void *fake_stack_save, const void **bottom_old, size_t *size_old) __attribute__((weak));
+  void __asan_unpoison_memory_region(void const volatile *addr, size_t size) __attribute__((weak));
+}
+
+// functions that run on a work-item's fiber but belong to the emulator: never instrumented by -fsanitize=thread
+#define GPUEMU_EMU_FN __attribute__((no_sanitize("thread")))
 
 namespace gpuemu {
 
@@ -95,7 +102,11 @@ namespace gpuemu {
       std::exception_ptr error;
       std::vector<LocalBlock> locals;    // SYCL group-local blocks of the running group
       bool active;
-      Group() : n(0), running(size_t(-1)), schedFake(0), schedBottom(0), schedSize(0), item(0), active(false) {}
+      size_t groupSeq;                   // number of groups started so far (identifies the running group)
+      size_t phase;                      // barrier phase of the running group (number of releases so far)
+      void (*groupEndHook)();            // race monitor: called when a group has finished (before its local blocks are freed)
+      Group() : n(0), running(size_t(-1)), schedFake(0), schedBottom(0), schedSize(0), item(0), active(false),
+                groupSeq(0), phase(0), groupEndHook(0) {}
       ~Group() {
         for (size_t i = 0; i < pool.size(); ++i) {
           munmap(pool[i]->map, pool[i]->mapSize);
@@ -121,6 +132,27 @@ namespace gpuemu {
       return v;
     }
 
+    // order in which the items of a group run inside every barrier phase: ascending linear index (default) or
+    // descending (environment GPUEMU_ITEM_ORDER=desc).  A kernel with independent items gives the same result.
+    inline int& itemOrderSetting() {
+      static int v = -1;            // -1: not decided yet (environment), 0: ascending, 1: descending
+      return v;
+    }
+
+    inline bool descendingOrder() {
+      int &v = itemOrderSetting();
+      if (v < 0) {
+        const char *e = std::getenv("GPUEMU_ITEM_ORDER");
+        v = (e && !std::strcmp(e, "desc")) ? 1 : 0;
+      }
+      return v == 1;
+    }
+
+    // overrides the environment (a harness that runs both orders in one process)
+    inline void setDescendingOrder(bool descending) {
+      itemOrderSetting() = descending ? 1 : 0;
+    }
+
     inline Fiber* newFiber() {
       Fiber *f = new Fiber();
       const size_t page = 4096;
@@ -140,24 +172,16 @@ namespace gpuemu {
       return f;
     }
 
-    inline void startSwitch(void **fakeSave, const void *bottom, size_t size) {
-#if GPUEMU_ASAN
-      __sanitizer_start_switch_fiber(fakeSave, bottom, size);
-#else
-      (void) fakeSave; (void) bottom; (void) size;
-#endif
+    GPUEMU_EMU_FN inline void startSwitch(void **fakeSave, const void *bottom, size_t size) {
+      if (__sanitizer_start_switch_fiber) __sanitizer_start_switch_fiber(fakeSave, bottom, size);
     }
 
-    inline void finishSwitch(void *fake, const void **bottomOld, size_t *sizeOld) {
-#if GPUEMU_ASAN
-      __sanitizer_finish_switch_fiber(fake, bottomOld, sizeOld);
-#else
-      (void) fake; (void) bottomOld; (void) sizeOld;
-#endif
+    GPUEMU_EMU_FN inline void finishSwitch(void *fake, const void **bottomOld, size_t *sizeOld) {
+      if (__sanitizer_finish_switch_fiber) __sanitizer_finish_switch_fiber(fake, bottomOld, sizeOld);
     }
 
     // fiber -> scheduler
-    inline void yieldToScheduler(Fiber &f, bool final) {
+    GPUEMU_EMU_FN inline void yieldToScheduler(Fiber &f, bool final) {
       Group &g = group();
       startSwitch(final ? (void**) 0 : &f.fakeStack, g.schedBottom, g.schedSize);
       swapcontext(&f.ctx, &g.sched);
@@ -165,7 +189,7 @@ namespace gpuemu {
       finishSwitch(f.fakeStack, &g.schedBottom, &g.schedSize);
     }
 
-    inline void trampoline() {
+    GPUEMU_EMU_FN inline void trampoline() {
       Group &g = group();
       Fiber &f = *g.pool[g.running];
       finishSwitch(0, &g.schedBottom, &g.schedSize);
@@ -180,7 +204,7 @@ namespace gpuemu {
     }
 
     // scheduler -> fiber i
-    inline void resume(size_t i) {
+    GPUEMU_EMU_FN inline void resume(size_t i) {
       Group &g = group();
       Fiber &f = *g.pool[i];
       WorkItem &w = cur();
@@ -200,7 +224,7 @@ namespace gpuemu {
     }
   }
 
-  inline void fiberBarrier() {
+  GPUEMU_EMU_FN inline void fiberBarrier() {
     wg::Group &g = wg::group();
     if (!g.active || g.running == size_t(-1)) {
       throw launch_error("barrier outside of a running work-item");
@@ -212,7 +236,7 @@ namespace gpuemu {
     // released: cur().local was restored by resume()
   }
 
-  inline void fiberGroupExecutor(const size_t lsize[3], const ItemFn &item) {
+  GPUEMU_EMU_FN inline void fiberGroupExecutor(const size_t lsize[3], const ItemFn &item) {
     wg::Group &g = wg::group();
     if (g.active) {
       throw launch_error("nested group execution");
@@ -225,6 +249,8 @@ namespace gpuemu {
     g.item = &item;
     g.error = std::exception_ptr();
     g.active = true;
+    ++g.groupSeq;
+    g.phase = 0;
     ++workgroupStats().fiberGroups;
     size_t idx = 0;
     for (size_t lz = 0; lz < lsize[2]; ++lz) {
@@ -235,9 +261,7 @@ namespace gpuemu {
           f.state = wg::Ready;
           f.fakeStack = 0;
           f.localCalls = 0;
-#if GPUEMU_ASAN
-          __asan_unpoison_memory_region(f.stack, f.stackSize);
-#endif
+          if (__asan_unpoison_memory_region) __asan_unpoison_memory_region(f.stack, f.stackSize);
           getcontext(&f.ctx);
           f.ctx.uc_stack.ss_sp = f.stack;
           f.ctx.uc_stack.ss_size = f.stackSize;
@@ -248,8 +272,10 @@ namespace gpuemu {
       }
     }
     std::string failure;
+    const bool descending = wg::descendingOrder();
     while (true) {
-      for (size_t i = 0; i < n && !g.error; ++i) {
+      for (size_t k = 0; k < n && !g.error; ++k) {
+        const size_t i = descending ? (n - 1 - k) : k;
         if (g.pool[i]->state == wg::Ready) {
           wg::resume(i);
         }
@@ -263,6 +289,7 @@ namespace gpuemu {
       if (done == n) break;
       if (waiting == n) {
         ++workgroupStats().barrierReleases;
+        ++g.phase;
         for (size_t i = 0; i < n; ++i) g.pool[i]->state = wg::Ready;
         continue;
       }
@@ -271,6 +298,7 @@ namespace gpuemu {
                 " never reach";
       break;
     }
+    if (g.groupEndHook) g.groupEndHook();
     wg::freeLocals(g);
     g.active = false;
     g.item = 0;
@@ -285,7 +313,7 @@ namespace gpuemu {
   }
 
   // SYCL group-local storage: see the header comment
-  inline void* groupLocalAlloc(size_t bytes) {
+  GPUEMU_EMU_FN inline void* groupLocalAlloc(size_t bytes) {
     wg::Group &g = wg::group();
     if (!g.active || g.running == size_t(-1)) {
       throw launch_error("group-local memory requested outside of a running work-item");
@@ -309,6 +337,19 @@ namespace gpuemu {
     g.locals.push_back(b);
     ++workgroupStats().localAllocs;
     return b.ptr;
+  }
+
+  // Atomic read-modify-write used by the stubs' atomic functions: a real atomic operation (compare-exchange), so
+  // that a TSan-instrumented device TU (race pass, race_runtime.cpp) sees it as an atomic access.
+  template <class T, class F>
+  inline T atomicRmw(T *p, F f) {
+    T old, desired;
+    __atomic_load(p, &old, __ATOMIC_RELAXED);
+    desired = f(old);
+    while (!__atomic_compare_exchange(p, &old, &desired, false, __ATOMIC_RELAXED, __ATOMIC_RELAXED)) {
+      desired = f(old);
+    }
+    return old;
   }
 
   inline void installWorkgroupExecutor() {
